@@ -1,5 +1,6 @@
 import Dashu.Model.Int.Div
 import Dashu.Proofs.Int.Repr
+import Dashu.Proofs.Int.Mul
 /-
   Refinement of the division layer (`Dashu/Model/Int/Div.lean`) to `/` and `%` on `Nat`/`Int`,
   for every word size `W ≥ 1` and every operand length.
@@ -1388,29 +1389,18 @@ theorem highestDword_drop (W : Nat) (rhs : List Nat) (k : Nat) (hk : k + 2 ≤ r
   have h2 : k + (rhs.length - k - 1) = rhs.length - 1 := by omega
   rw [h1, h2]
 
-/-- the contract of `add_signed_mul(c, Negative, a, b)` in the form the proof uses -/
-theorem subMulContract_spec (W : Nat) (c a b : List Nat) :
-    let r := subMulContract W c a b
-    r.1.length = c.length ∧ IsWords W r.1 ∧
-    (val W r.1 : Int) + r.2 * ((2 ^ (W * c.length) : Nat) : Int)
+/-- `mul::add_signed_mul(c, Negative, a, b)` as mirrored and proved in C01 (`addSignedMul_contract`):
+    `c − a·b` modulo `B^len(c)` with the signed carry -/
+theorem addSignedMul_neg_spec (W : Nat) (hW4 : 4 ≤ W) (fuel : Nat) (c a b : List Nat)
+    (hl : c.length = a.length + b.length) (hc : IsWords W c) (ha : IsWords W a) (hb : IsWords W b) :
+    (addSignedMul W fuel c true a b).1.length = c.length ∧ IsWords W (addSignedMul W fuel c true a b).1 ∧
+    (val W (addSignedMul W fuel c true a b).1 : Int)
+        + (addSignedMul W fuel c true a b).2 * ((2 ^ (W * c.length) : Nat) : Int)
       = (val W c : Int) - (val W a : Int) * (val W b : Int) := by
-  have hP : (0 : Int) < ((2 ^ (W * c.length) : Nat) : Int) := by
-    exact_mod_cast Nat.two_pow_pos (W * c.length)
-  obtain ⟨t1, t2, t3⟩ := toWords_spec W c.length
-    ((((val W c : Int) - (val W a : Int) * (val W b : Int)) % ((2 ^ (W * c.length) : Nat) : Int)).toNat)
-  refine ⟨t1, t2, ?_⟩
-  simp only [subMulContract]
-  rw [t3]
-  have h0 := Int.emod_nonneg ((val W c : Int) - (val W a : Int) * (val W b : Int)) (Int.ne_of_gt hP)
-  have h1 := Int.emod_lt_of_pos ((val W c : Int) - (val W a : Int) * (val W b : Int)) hP
-  have h2 := Int.emod_add_mul_ediv ((val W c : Int) - (val W a : Int) * (val W b : Int))
-    ((2 ^ (W * c.length) : Nat) : Int)
-  generalize ((val W c : Int) - (val W a : Int) * (val W b : Int)) % ((2 ^ (W * c.length) : Nat) : Int) = e at *
-  have hlt : e.toNat < 2 ^ (W * c.length) := by
-    have : ((e.toNat : Nat) : Int) < ((2 ^ (W * c.length) : Nat) : Int) := by
-      rw [Int.toNat_of_nonneg h0]; exact h1
-    exact_mod_cast this
-  rw [Nat.mod_eq_of_lt hlt, Int.toNat_of_nonneg h0]
+  obtain ⟨h1, h2, h3⟩ := addSignedMul_contract W hW4 fuel c true a b hl hc ha hb
+  refine ⟨h1, h2, ?_⟩
+  simp only [sgn, if_true] at h3
+  push_cast at h3 ⊢
   linarith
 
 /-- the correction loop of `small_quotient`: given the invariant `Q'·b + T' = a`, `T' < b` and
@@ -1628,7 +1618,7 @@ theorem bz_T_ge (vq qo Pm Pk Pn rlo b : Nat) (hq : vq < Pm) (hqo : qo ≤ 1) (hr
 
 /-- Burnikel–Ziegler, both mutually recursive halves, by induction on the recursion fuel
     (relative to the contract of `add_signed_mul`) -/
-theorem bz_mutual (W : Nat) (hW : 1 ≤ W) : ∀ fuel : Nat,
+theorem bz_mutual (W : Nat) (hW : 1 ≤ W) (hW4 : 4 ≤ W) : ∀ fuel : Nat,
     (∀ lhs rhs : List Nat, 2 * rhs.length + 1 ≤ fuel → thresholdSimple < rhs.length →
       lhs.length = 2 * rhs.length → IsWords W lhs → IsWords W rhs →
       2 ^ (W * rhs.length) ≤ 2 * val W rhs →
@@ -1741,8 +1731,11 @@ theorem bz_mutual (W : Nat) (hW : 1 ≤ W) : ∀ fuel : Nat,
           have := val_lt W _ (hl.take k); rwa [hltk] at this
         have hvl := take_drop_val W lhs k (by omega)
         -- rem -= q * rhs_lo
-        have sm := subMulContract_spec W (lhs.take k ++ top'.take m) (top'.drop m) (rhs.take k)
-        generalize hsm1 : subMulContract W (lhs.take k ++ top'.take m) (top'.drop m) (rhs.take k) = p1 at sm
+        have sm := addSignedMul_neg_spec W hW4 (lhs.take k ++ top'.take m).length
+          (lhs.take k ++ top'.take m) (top'.drop m) (rhs.take k) (by rw [hreml, hql, hrt]; omega)
+          hremw hqw (hr.take _)
+        generalize hsm1 : addSignedMul W (lhs.take k ++ top'.take m).length (lhs.take k ++ top'.take m)
+          true (top'.drop m) (rhs.take k) = p1 at sm
         obtain ⟨rem1, ro1⟩ := p1
         simp only at sm
         obtain ⟨s1, s2, s3⟩ := sm
@@ -1879,7 +1872,7 @@ theorem bz_mutual (W : Nat) (hW : 1 ≤ W) : ∀ fuel : Nat,
           exact_mod_cast this
 
 /-- the block loop of `divide_conquer::div_rem_in_place` -/
-theorem bzOuter_spec (W : Nat) (hW : 1 ≤ W) (rhs : List Nat) (hn : thresholdSimple < rhs.length)
+theorem bzOuter_spec (W : Nat) (hW : 1 ≤ W) (hW4 : 4 ≤ W) (rhs : List Nat) (hn : thresholdSimple < rhs.length)
     (hr : IsWords W rhs) (hnorm : 2 ^ (W * rhs.length) ≤ 2 * val W rhs) :
     ∀ (t : Nat) (lhs : List Nat), lhs.length / rhs.length = t + 1 → IsWords W lhs →
       (lhs.length = rhs.length → val W lhs < val W rhs) →
@@ -1887,7 +1880,7 @@ theorem bzOuter_spec (W : Nat) (hW : 1 ≤ W) (rhs : List Nat) (hn : thresholdSi
   have hts : thresholdSimple = 32 := rfl
   rw [hts] at hn
   have hnpos : 0 < rhs.length := by omega
-  obtain ⟨bzS, bzQ⟩ := bz_mutual W hW (2 * rhs.length + 1)
+  obtain ⟨bzS, bzQ⟩ := bz_mutual W hW hW4 (2 * rhs.length + 1)
   intro t
   induction t with
   | zero =>
@@ -1964,7 +1957,7 @@ theorem bzOuter_spec (W : Nat) (hW : 1 ≤ W) (rhs : List Nat) (hn : thresholdSi
 
 /-- `divide_conquer::div_rem_in_place` (Burnikel–Ziegler) meets the in-place division contract,
     relative to the contract of `add_signed_mul` -/
-theorem bzDivRemInPlace_spec (W : Nat) (hW : 1 ≤ W) (lhs rhs : List Nat)
+theorem bzDivRemInPlace_spec (W : Nat) (hW : 1 ≤ W) (hW4 : 4 ≤ W) (lhs rhs : List Nat)
     (hn : thresholdSimple < rhs.length) (hm : rhs.length + thresholdSimple < lhs.length)
     (hl : IsWords W lhs) (hr : IsWords W rhs) (hnorm : 2 ^ (W * rhs.length) ≤ 2 * val W rhs) :
     InPlaceOk W lhs rhs (bzDivRemInPlace W lhs rhs (highestDword W rhs)) := by
@@ -1974,10 +1967,10 @@ theorem bzDivRemInPlace_spec (W : Nat) (hW : 1 ≤ W) (lhs rhs : List Nat)
   have hcond : lhs.length > rhs.length + thresholdSimple ∧ rhs.length > thresholdSimple := ⟨hm, hn⟩
   simp only [bzDivRemInPlace]
   rw [if_neg (not_not.mpr hcond)]
-  exact bzOuter_spec W hW rhs hn hr hnorm (lhs.length / rhs.length - 1) lhs (by omega) hl (by omega)
+  exact bzOuter_spec W hW hW4 rhs hn hr hnorm (lhs.length / rhs.length - 1) lhs (by omega) hl (by omega)
 
 /-- `div::div_rem_in_place` (either algorithm): lhs becomes [lhs % rhs, lhs / rhs] + carry -/
-theorem divRemInPlace_spec (W : Nat) (hW : 1 ≤ W) (lhs rhs : List Nat) (hn : 2 ≤ rhs.length)
+theorem divRemInPlace_spec (W : Nat) (hW : 1 ≤ W) (hW4 : 4 ≤ W) (lhs rhs : List Nat) (hn : 2 ≤ rhs.length)
     (hm : rhs.length ≤ lhs.length) (hl : IsWords W lhs) (hr : IsWords W rhs)
     (hnorm : 2 ^ (W * rhs.length) ≤ 2 * val W rhs) :
     ∃ out c, divRemInPlace W lhs rhs (highestDword W rhs) = .ok (out, c) ∧
@@ -1991,7 +1984,7 @@ theorem divRemInPlace_spec (W : Nat) (hW : 1 ≤ W) (lhs rhs : List Nat) (hn : 2
     exact ⟨out, c, e, o1, o2, o3, o4⟩
   · rw [if_neg hs]
     have hts : thresholdSimple = 32 := rfl
-    obtain ⟨out, c, e, o1, o2, _, o3, o4⟩ := bzDivRemInPlace_spec W hW lhs rhs (by omega) (by omega) hl hr hnorm
+    obtain ⟨out, c, e, o1, o2, _, o3, o4⟩ := bzDivRemInPlace_spec W hW hW4 lhs rhs (by omega) (by omega) hl hr hnorm
     exact ⟨out, c, e, o1, o2, o3, o4⟩
 
 -- ------------------------------------------------------------------ normalize / unshifted / in-lhs
@@ -2096,7 +2089,7 @@ theorem qtop_lt (W s Q qTop Pk Pn b R X : Nat) (hs : s + 1 ≤ W) (hPk : 0 < Pk)
 
 /-- `div_rem_unshifted_in_place`: shift the dividend, divide in place; `q_top` collects the shift
     carry's quotient word and the quotient carry -/
-theorem divRemUnshiftedInPlace_spec (W : Nat) (hW : 1 ≤ W) (lhs rhs : List Nat) (shift : Nat)
+theorem divRemUnshiftedInPlace_spec (W : Nat) (hW : 1 ≤ W) (hW4 : 4 ≤ W) (lhs rhs : List Nat) (shift : Nat)
     (hn : 2 ≤ rhs.length) (hm : rhs.length ≤ lhs.length) (hl : IsWords W lhs) (hr : IsWords W rhs)
     (hs : shift + 1 ≤ W) (hnorm : 2 ^ (W * rhs.length) ≤ 2 * val W rhs) :
     ∃ out qTop, divRemUnshiftedInPlace W lhs rhs shift (highestDword W rhs) = .ok (out, qTop) ∧
@@ -2145,7 +2138,7 @@ theorem divRemUnshiftedInPlace_spec (W : Nat) (hW : 1 ≤ W) (lhs rhs : List Nat
     have hl2len : (lhs1.take (lhs.length - rhs.length) ++ win').length = lhs.length := by
       rw [List.length_append, htkl, hwl']; omega
     obtain ⟨out, c, e2, o1, o2, o3, o4⟩ :=
-      divRemInPlace_spec W hW _ rhs hn (by omega) hl2 hr hnorm
+      divRemInPlace_spec W hW hW4 _ rhs hn (by omega) hl2 hr hnorm
     rw [hl2len] at o1 o4
     have hv1 := take_drop_val W lhs1 (lhs.length - rhs.length) (by omega)
     rw [val_append, htkl] at o4
@@ -2164,7 +2157,7 @@ theorem divRemUnshiftedInPlace_spec (W : Nat) (hW : 1 ≤ W) (lhs rhs : List Nat
     simp only [divRemUnshiftedInPlace, hsh, hc, if_true, e, bind, Except.bind, e2, pure, Except.pure]
   · have hc0 : carry = 0 := by omega
     subst hc0
-    obtain ⟨out, c, e2, o1, o2, o3, o4⟩ := divRemInPlace_spec W hW lhs1 rhs hn (by omega) s3 hr hnorm
+    obtain ⟨out, c, e2, o1, o2, o3, o4⟩ := divRemInPlace_spec W hW hW4 lhs1 rhs hn (by omega) s3 hr hnorm
     rw [s2] at o1 o4
     have hfin : (val W (out.drop rhs.length) + (0 + c) * 2 ^ (W * (lhs.length - rhs.length))) * val W rhs
         + val W (out.take rhs.length) = val W lhs * 2 ^ shift := by
@@ -2199,7 +2192,7 @@ theorem shrRemainder_spec (W s X : Nat) (hs : s ≤ W) (r : List Nat) (h : IsWor
 
 /-- `div_rem_in_lhs`: the buffer holds the exact quotient (incl. its top word) above the shifted
     exact remainder -/
-theorem divRemInLhs_spec (W : Nat) (hW : 1 ≤ W) (lhs rhs : List Nat) (hl : IsWords W lhs)
+theorem divRemInLhs_spec (W : Nat) (hW : 1 ≤ W) (hW4 : 4 ≤ W) (lhs rhs : List Nat) (hl : IsWords W lhs)
     (hr : IsWords W rhs) (hn : 2 ≤ rhs.length) (hm : rhs.length ≤ lhs.length)
     (htop : rhs.getD (rhs.length - 1) 0 ≠ 0) :
     ∃ buf rhs' shift, divRemInLhs W lhs rhs = .ok (buf, rhs', shift) ∧ rhs'.length = rhs.length ∧
@@ -2209,7 +2202,7 @@ theorem divRemInLhs_spec (W : Nat) (hW : 1 ≤ W) (lhs rhs : List Nat) (hl : IsW
   obtain ⟨rhs', shift, e, hs, n1, n2, n3, n4⟩ := normalize_spec W hW rhs hr hn htop
   rw [← n1] at n4
   obtain ⟨out, qTop, e2, o1, o2, o3, o4, o5⟩ :=
-    divRemUnshiftedInPlace_spec W hW lhs rhs' shift (by omega) (by omega) hl n2 hs n4
+    divRemUnshiftedInPlace_spec W hW hW4 lhs rhs' shift (by omega) (by omega) hl n2 hs n4
   rw [n1] at o4 o5
   have hdl : (out.drop rhs.length).length = lhs.length - rhs.length := by
     simp only [List.length_drop]; omega
@@ -2245,14 +2238,14 @@ theorem divRemInLhs_spec (W : Nat) (hW : 1 ≤ W) (lhs rhs : List Nat) (hl : IsW
     linarith [h7, o5]
 
 /-- `div_rem_large` / `div_large` / `rem_large`: exact quotient and remainder, canonical results -/
-theorem divRemLarge_spec (W : Nat) (hW : 1 ≤ W) (lhs rhs : List Nat) (hl : IsWords W lhs)
+theorem divRemLarge_spec (W : Nat) (hW : 1 ≤ W) (hW4 : 4 ≤ W) (lhs rhs : List Nat) (hl : IsWords W lhs)
     (hr : IsWords W rhs) (hn : 2 ≤ rhs.length) (hm : rhs.length ≤ lhs.length)
     (htop : rhs.getD (rhs.length - 1) 0 ≠ 0) :
     (∃ q r, divRemLarge W lhs rhs = .ok (q, r) ∧ q.value W = val W lhs / val W rhs ∧
       r.value W = val W lhs % val W rhs ∧ q.Canon W ∧ r.Canon W) ∧
     (∃ q, divLarge W lhs rhs = .ok q ∧ q.value W = val W lhs / val W rhs ∧ q.Canon W) ∧
     (∃ r, remLarge W lhs rhs = .ok r ∧ r.value W = val W lhs % val W rhs ∧ r.Canon W) := by
-  obtain ⟨buf, rhs', shift, e, h1, h2, h3, h4, h5, h6⟩ := divRemInLhs_spec W hW lhs rhs hl hr hn hm htop
+  obtain ⟨buf, rhs', shift, e, h1, h2, h3, h4, h5, h6⟩ := divRemInLhs_spec W hW hW4 lhs rhs hl hr hn hm htop
   obtain ⟨r', e2, r1, r2, r3⟩ := shrRemainder_spec W shift _ h2 (buf.take rhs.length) (h3.take _) h6
   refine ⟨⟨fromBuffer W (buf.drop rhs.length), fromBuffer W r', ?_, ?_, ?_,
       fromBuffer_canon W _ (h3.drop _), fromBuffer_canon W _ r3⟩,
@@ -2325,7 +2318,7 @@ theorem remLargeDword_spec (W : Nat) (hW : 1 ≤ W) (ws : List Nat) (rhs : Nat)
       simp only [remLargeDword, hne, if_false, hw, e, bind, Except.bind, pure, Except.pure]
 
 /-- `DivRem for TypedRepr`: exact `(a / b, a % b)` with canonical results; `b = 0` panics -/
-theorem divRemRepr_spec (W : Nat) (hW : 1 ≤ W) (a b : TRepr) (ha : a.Canon W) (hb : b.Canon W) :
+theorem divRemRepr_spec (W : Nat) (hW : 1 ≤ W) (hW4 : 4 ≤ W) (a b : TRepr) (ha : a.Canon W) (hb : b.Canon W) :
     (b.value W = 0 → divRemRepr W a b = .error .divideByZero) ∧
     (b.value W ≠ 0 → ∃ q r, divRemRepr W a b = .ok (q, r) ∧ q.value W = a.value W / b.value W ∧
       r.value W = a.value W % b.value W ∧ q.Canon W ∧ r.Canon W) := by
@@ -2357,7 +2350,7 @@ theorem divRemRepr_spec (W : Nat) (hW : 1 ≤ W) (a b : TRepr) (ha : a.Canon W) 
         have := Nat.two_pow_pos (2 * W); omega
       · intro _
         by_cases hl : ws.length ≥ w1.length
-        · obtain ⟨⟨q, r, e, h1, h2, h3, h4⟩, _, _⟩ := divRemLarge_spec W hW ws w1 ha.large_words
+        · obtain ⟨⟨q, r, e, h1, h2, h3, h4⟩, _, _⟩ := divRemLarge_spec W hW hW4 ws w1 ha.large_words
             hb.large_words (by have := hb.large_len; omega) hl (top_ne_zero_of_canon (W := W) (ws := w1) hb)
           exact ⟨q, r, by simp only [divRemRepr, hl, if_true, e], h1, h2, h3, h4⟩
         · have hlt : val W ws < val W w1 :=
@@ -2368,7 +2361,7 @@ theorem divRemRepr_spec (W : Nat) (hW : 1 ≤ W) (a b : TRepr) (ha : a.Canon W) 
           · simp [fromBuffer_value, Nat.mod_eq_of_lt hlt]
 
 /-- `Div for TypedRepr` -/
-theorem divRepr_spec (W : Nat) (hW : 1 ≤ W) (a b : TRepr) (ha : a.Canon W) (hb : b.Canon W) :
+theorem divRepr_spec (W : Nat) (hW : 1 ≤ W) (hW4 : 4 ≤ W) (a b : TRepr) (ha : a.Canon W) (hb : b.Canon W) :
     (b.value W = 0 → divRepr W a b = .error .divideByZero) ∧
     (b.value W ≠ 0 → ∃ q, divRepr W a b = .ok q ∧ q.value W = a.value W / b.value W ∧ q.Canon W) := by
   cases a with
@@ -2405,7 +2398,7 @@ theorem divRepr_spec (W : Nat) (hW : 1 ≤ W) (a b : TRepr) (ha : a.Canon W) (hb
         have := Nat.two_pow_pos (2 * W); omega
       · intro _
         by_cases hl : ws.length ≥ w1.length
-        · obtain ⟨_, ⟨q, e, h1, h3⟩, _⟩ := divRemLarge_spec W hW ws w1 ha.large_words
+        · obtain ⟨_, ⟨q, e, h1, h3⟩, _⟩ := divRemLarge_spec W hW hW4 ws w1 ha.large_words
             hb.large_words (by have := hb.large_len; omega) hl (top_ne_zero_of_canon (W := W) (ws := w1) hb)
           exact ⟨q, by simp only [divRepr, hl, if_true, e], h1, h3⟩
         · have hlt : val W ws < val W w1 :=
@@ -2414,7 +2407,7 @@ theorem divRepr_spec (W : Nat) (hW : 1 ≤ W) (a b : TRepr) (ha : a.Canon W) (hb
             Nat.two_pow_pos _⟩
 
 /-- `Rem for TypedRepr` -/
-theorem remRepr_spec (W : Nat) (hW : 1 ≤ W) (a b : TRepr) (ha : a.Canon W) (hb : b.Canon W) :
+theorem remRepr_spec (W : Nat) (hW : 1 ≤ W) (hW4 : 4 ≤ W) (a b : TRepr) (ha : a.Canon W) (hb : b.Canon W) :
     (b.value W = 0 → remRepr W a b = .error .divideByZero) ∧
     (b.value W ≠ 0 → ∃ r, remRepr W a b = .ok r ∧ r.value W = a.value W % b.value W ∧ r.Canon W) := by
   cases a with
@@ -2451,7 +2444,7 @@ theorem remRepr_spec (W : Nat) (hW : 1 ≤ W) (a b : TRepr) (ha : a.Canon W) (hb
         have := Nat.two_pow_pos (2 * W); omega
       · intro _
         by_cases hl : ws.length ≥ w1.length
-        · obtain ⟨_, _, ⟨r, e, h1, h3⟩⟩ := divRemLarge_spec W hW ws w1 ha.large_words
+        · obtain ⟨_, _, ⟨r, e, h1, h3⟩⟩ := divRemLarge_spec W hW hW4 ws w1 ha.large_words
             hb.large_words (by have := hb.large_len; omega) hl (top_ne_zero_of_canon (W := W) (ws := w1) hb)
           exact ⟨r, by simp only [remRepr, hl, if_true, e], h1, h3⟩
         · have hlt : val W ws < val W w1 :=
@@ -2784,7 +2777,7 @@ theorem short_lt_large (W b shift : Nat) (nd ws : List Nat) (hW : 1 ≤ W) (hs :
   nlinarith
 
 /-- `DivRem<&ConstDivisor>`: the prepared divisor gives exactly `(a / b, a % b)` -/
-theorem divRemConst_spec (W : Nat) (hW : 1 ≤ W) (a : TRepr) (b : Nat) (c : ConstDiv)
+theorem divRemConst_spec (W : Nat) (hW : 1 ≤ W) (hW4 : 4 ≤ W) (a : TRepr) (b : Nat) (c : ConstDiv)
     (ha : a.Canon W) (hv : c.Valid W b) :
     ∃ q r, divRemConst W a c = .ok (q, r) ∧ q.value W = a.value W / b ∧ r.value W = a.value W % b ∧
       q.Canon W ∧ r.Canon W := by
@@ -2843,7 +2836,7 @@ theorem divRemConst_spec (W : Nat) (hW : 1 ≤ W) (a : TRepr) (b : Nat) (c : Con
         · simp [Nat.div_eq_of_lt hx]
         · simp [fromBuffer_value, Nat.mod_eq_of_lt hx]
       · obtain ⟨out, qTop, e, o1, o2, o3, o4, o5⟩ :=
-          divRemUnshiftedInPlace_spec W hW ws nd shift (by omega) (by omega) ha.large_words h2 h3 h5
+          divRemUnshiftedInPlace_spec W hW hW4 ws nd shift (by omega) (by omega) ha.large_words h2 h3 h5
         rw [h4] at o4 o5
         have ⟨m1, m2⟩ := unshifted_to_divmod W shift nd.length ws.length (val W ws) b qTop out hbpos
           (by omega) o1 o4 o5
@@ -2858,7 +2851,7 @@ theorem divRemConst_spec (W : Nat) (hW : 1 ≤ W) (a : TRepr) (b : Nat) (c : Con
         · rw [fromBuffer_value, r1]; rfl
 
 /-- `Div<&ConstDivisor>` -/
-theorem divConst_spec (W : Nat) (hW : 1 ≤ W) (a : TRepr) (b : Nat) (c : ConstDiv)
+theorem divConst_spec (W : Nat) (hW : 1 ≤ W) (hW4 : 4 ≤ W) (a : TRepr) (b : Nat) (c : ConstDiv)
     (ha : a.Canon W) (hv : c.Valid W b) :
     ∃ q, divConst W a c = .ok q ∧ q.value W = a.value W / b ∧ q.Canon W := by
   cases c with
@@ -2910,7 +2903,7 @@ theorem divConst_spec (W : Nat) (hW : 1 ≤ W) (a : TRepr) (b : Nat) (c : ConstD
         exact ⟨.small 0, by simp only [divConst, hl, if_true], by simp [Nat.div_eq_of_lt hx],
           Nat.two_pow_pos _⟩
       · obtain ⟨out, qTop, e, o1, o2, o3, o4, o5⟩ :=
-          divRemUnshiftedInPlace_spec W hW ws nd shift (by omega) (by omega) ha.large_words h2 h3 h5
+          divRemUnshiftedInPlace_spec W hW hW4 ws nd shift (by omega) (by omega) ha.large_words h2 h3 h5
         rw [h4] at o4 o5
         have ⟨m1, _⟩ := unshifted_to_divmod W shift nd.length ws.length (val W ws) b qTop out hbpos
           (by omega) o1 o4 o5
@@ -2921,7 +2914,7 @@ theorem divConst_spec (W : Nat) (hW : 1 ≤ W) (a : TRepr) (b : Nat) (c : ConstD
         · rw [fromBuffer_value, m1]; rfl
 
 /-- `Rem<&ConstDivisor>` (on the tree with /repo commit 2941615) -/
-theorem remConst_spec (W : Nat) (hW : 1 ≤ W) (a : TRepr) (b : Nat) (c : ConstDiv)
+theorem remConst_spec (W : Nat) (hW : 1 ≤ W) (hW4 : 4 ≤ W) (a : TRepr) (b : Nat) (c : ConstDiv)
     (ha : a.Canon W) (hv : c.Valid W b) :
     ∃ r, remConst W a c = .ok r ∧ r.value W = a.value W % b ∧ r.Canon W := by
   cases c with
@@ -2966,7 +2959,7 @@ theorem remConst_spec (W : Nat) (hW : 1 ≤ W) (a : TRepr) (b : Nat) (c : ConstD
         exact ⟨fromBuffer W ws, by simp only [remConst, hl, if_true],
           by simp [fromBuffer_value, Nat.mod_eq_of_lt hx], fromBuffer_canon W ws ha.large_words⟩
       · obtain ⟨out, qTop, e, o1, o2, o3, o4, o5⟩ :=
-          divRemUnshiftedInPlace_spec W hW ws nd shift (by omega) (by omega) ha.large_words h2 h3 h5
+          divRemUnshiftedInPlace_spec W hW hW4 ws nd shift (by omega) (by omega) ha.large_words h2 h3 h5
         rw [h4] at o4 o5
         have ⟨_, m2⟩ := unshifted_to_divmod W shift nd.length ws.length (val W ws) b qTop out hbpos
           (by omega) o1 o4 o5
